@@ -104,6 +104,28 @@ def programs():
         p = prog(N("Seq", "u", a=body), [])
         p["gss"] = True
         out.append(("globalGetEx " + order, p))
+    # boxes (version 8): create / put / get / length / delete / extract / replace, on present and absent boxes, sizes that (mis)match
+    name = N("Bytes", "b", n=[98, 120])
+    itob = lambda e: N("Op", "b", s="itob", a=[e])      # noqa: E731
+    logu = lambda e: N("Log", "n", a=[itob(e)])         # noqa: E731
+    mvget = N("MV", "n", s="BoxGet", a=[name], i=[1])
+    mvlen = N("MV", "n", s="BoxLen", a=[name], i=[2])
+    out.append(("box create/put/get", prog(N("Seq", "u", a=[
+        logu(N("BoxCreate", "u", a=[name, argu(0)])), N("BoxPut", "n", a=[name, argb(1)]), mvget,
+        N("Log", "n", a=[N("MVVal", "b", i=[1])]), logu(N("MVHas", "u", i=[1])), N("Int", n=[1])]), ["u4", "b4"])))
+    out.append(("box create twice", prog(N("Seq", "u", a=[
+        logu(N("BoxCreate", "u", a=[name, argu(0)])), logu(N("BoxCreate", "u", a=[name, argu(1)])), N("Int", n=[1])]), ["u4", "u4"])))
+    out.append(("box length/delete", prog(N("Seq", "u", a=[
+        mvlen, logu(N("MVHas", "u", i=[2])), logu(N("MVVal", "u", i=[2])), logu(N("BoxDel", "u", a=[name])),
+        N("Pop", "n", a=[N("BoxCreate", "u", a=[name, argu(0)])]), N("MV", "n", s="BoxLen", a=[name], i=[3]),
+        logu(N("MVVal", "u", i=[3])), logu(N("BoxDel", "u", a=[name])), logu(N("BoxDel", "u", a=[name])), N("Int", n=[1])]), ["u4"])))
+    out.append(("box put/replace/extract", prog(N("Seq", "u", a=[
+        N("BoxPut", "n", a=[name, N("Op", "b", s="concat", a=[argb(0), N("Bytes", "b", n=[1, 2, 3, 4, 5, 6])])]),
+        N("BoxReplace", "n", a=[name, argu(1), argb(2)]), N("Log", "n", a=[N("BoxExtract", "b", a=[name, argu(1), argu(3)])]),
+        N("MV", "n", s="BoxGet", a=[name], i=[4]), N("Log", "n", a=[N("MVVal", "b", i=[4])]), N("Int", n=[1])]), ["b3", "u6", "b3", "u4"])))
+    out.append(("box extract/replace of an absent box", prog(N("Seq", "u", a=[
+        N("If", "n", a=[argu(0), N("BoxReplace", "n", a=[name, N("Int", n=[]), argb(1)]), N("Log", "n", a=[N("BoxExtract", "b", a=[name, N("Int", n=[]), N("Int", n=[1])])])]),
+        N("Int", n=[1])]), ["u4", "b3"])))
     # inner transactions: fields in order, two transactions in one group, array fields appended
     itx = [N("ItxBegin", "n"), N("ItxField", "n", s="TypeEnum", a=[N("Int", n=[1])]), N("ItxField", "n", s="Amount", a=[argu(0)]),
            N("ItxField", "n", s="Receiver", a=[N("Txn", "b", s="Sender")]), N("ItxNext", "n"),
